@@ -306,7 +306,7 @@ def _ext_values(facts):
 
 
 CLAIM = {
-    "text": "Decides writer-side necessary conditions: the extension dispatch handles json/hdf5/h5, rejects others, and covers the three filename/extension cases; every path of the JSON encoder returns a JSON-native value for numpy integers, floats and arrays and falls back to str for anything not serialisable, and save_to_json always installs it (so config.json is writable for classes, pools, callbacks); the only store into an HDF5 file object passes through the None-encoder and nested dictionaries recurse; both samplers' result dictionaries extend the base one and provide the keys the property names, and save_results adds the posterior samples; structured-array results must be converted with their field names before JSON encoding - true for posterior_samples only: the other structured results lose their field names in result.json (recorded known finding). The JSON encoder reads an attribute of the encoded object only where its branch guard implies the attribute exists (no branch can raise for a value the str() fallback would have handled). When saving is requested the result file is written on every path (C19.1).",
+    "text": "Decides writer-side necessary conditions: the extension dispatch handles json/hdf5/h5, rejects others, and covers the three filename/extension cases; every path of the JSON encoder returns a JSON-native value for numpy integers, floats and arrays and falls back to str for anything not serialisable, and save_to_json always installs it (so config.json is writable for classes, pools, callbacks); the only store into an HDF5 file object passes through the None-encoder and nested dictionaries recurse; both samplers' result dictionaries extend the base one and provide the keys the property names, and save_results adds the posterior samples; structured-array results must be converted with their field names before JSON encoding - true for posterior_samples only: the other structured results lose their field names in result.json (recorded known finding). The JSON encoder reads an attribute of the encoded object only where its branch guard implies the attribute exists (no branch can raise for a value the str() fallback would have handled). When saving is requested the result file is written on every path (C19.1). No JSON writer call of the package is given an option that makes it fail or drop entries on legal dictionaries (sort_keys=True with keys of mixed type, skipkeys, allow_nan=False) (C19.2).",
     "note": "Only the writer is in the repository: equality after reading back needs a reader and data and is not decided; h5py's handling of ragged lists / lists containing None is outside the analysed program.",
 }
 
